@@ -45,7 +45,7 @@ KITCHEN_FILES = {"tet.stl": stl_tetra(), "hf.bin": hfield_bin()}
 KITCHEN = """<mujoco model="c31 kitchen sink">
   <compiler angle="radian" autolimits="true"/>
   <option timestep="0.002" integrator="implicitfast" cone="elliptic" noslip_iterations="1">
-    <flag energy="enable" multiccd="enable" sleep="enable"/>
+    <flag energy="enable" multiccd="enable"/>
   </option>
   <size memory="1M" nuserdata="3" nuser_body="1" nuser_jnt="2" nuser_geom="1" nuser_site="1" nuser_cam="1"
         nuser_tendon="1" nuser_actuator="2" nuser_sensor="1"/>
